@@ -58,6 +58,12 @@ def sort_info(fn: ast.AST, lst: str) -> list[tuple[ast.Call, bool, str]]:
     """`.sort(key=..)` calls on list *lst*: (call, descending?, key text)."""
     out = []
     for n in own_nodes(fn):
+        # `lst = sorted(lst, key=...)`: the same list, sorted
+        if isinstance(n, ast.Assign) and len(n.targets) == 1 and U(n.targets[0]) == lst and isinstance(n.value, ast.Call) and call_name(n.value) == 'sorted' and n.value.args and U(n.value.args[0]) == lst:
+            rev = q.kw(n.value, 'reverse')
+            desc = rev is not None and not (isinstance(rev, ast.Constant) and rev.value is False)
+            k = q.kw(n.value, 'key')
+            out.append((n.value, desc, U(k) if k is not None else ''))
         if isinstance(n, ast.Call) and call_name(n) == 'sort' and isinstance(n.func, ast.Attribute) and U(n.func.value) == lst:
             rev = q.kw(n, 'reverse')
             desc = rev is not None and not (isinstance(rev, ast.Constant) and rev.value is False)
@@ -124,10 +130,20 @@ def c13_2(c: Ctx) -> None:
     rem_defs = [n for n in own_nodes(fn) if isinstance(n, (ast.Assign, ast.AnnAssign)) and isinstance(n.value, ast.List) and not n.value.elts]
     exts = sorted([n for n in own_nodes(fn) if isinstance(n, ast.Call) and call_name(n) == 'extend' and isinstance(n.func, ast.Attribute)], key=lambda n: n.lineno)
     order = []
+    slice_vars: dict[str, ast.Subscript] = {}
     for e in exts:
         src = None
         sl = None
-        for x in ast.walk(e.args[0]) if e.args else []:
+        cands = list(ast.walk(e.args[0])) if e.args else []
+        # the slice may be taken first and named (`oldest = lst[:n]`, then extend(... for ... in oldest)): follow the one definition that reaches this call
+        for x in list(cands):
+            if isinstance(x, ast.Name) and isinstance(x.ctx, ast.Load) and x.id not in (L_done, L_started, L_pending):
+                ds = sorted([d for d in own_nodes(fn) if isinstance(d, ast.Assign) and len(d.targets) == 1 and U(d.targets[0]) == x.id and d.lineno < e.lineno], key=lambda d: d.lineno)[-1:]
+                for d in ds:
+                    if isinstance(d.value, ast.Subscript):
+                        cands.append(d.value)
+                        slice_vars[x.id] = d.value
+        for x in cands:
             if isinstance(x, ast.Subscript) and isinstance(x.slice, ast.Slice) and isinstance(x.value, ast.Name) and x.value.id in (L_done, L_started, L_pending):
                 src, sl = x.value.id, x.slice
         if src is None:
@@ -150,8 +166,12 @@ def c13_2(c: Ctx) -> None:
             c.fail(u, f'slice bound of {src} is {ub}', f'the number taken from {src} is not bounded by the remaining count', node=e)
         sorts = sort_info(fn, src)
         srt_ok = sorts and all((not desc) and 'event_created_at' in k for _, desc, k in sorts) and all(s.lineno < e.lineno for s, _, _ in sorts)
-        if srt_ok:
-            c.ok(where(u, sorts[0][0]), f'{src} sorted ascending by event_created_at before slicing')
+        naked = [k for _, _, k in sorts if 'event_created_at' in k and 'event_created_at.timestamp()' not in k]
+        if srt_ok and naked:
+            c.fail(u, f'{src} sorted by comparing datetime objects directly ({naked[0][:60]})', 'event_created_at accepts timezone-naive and timezone-aware values (caller-supplied, rehydrated events); comparing one with the other '
+                   'raises TypeError inside the cleanup: dispatch() raises after having enqueued the event and the history stays over its bound', node=sorts[0][0])
+        elif srt_ok:
+            c.ok(where(u, sorts[0][0]), f'{src} sorted ascending by event_created_at.timestamp() (a float: totally ordered) before slicing')
         else:
             c.fail(u, f'{src} not sorted ascending by event_created_at before slicing ({[(d, k[:30]) for _, d, k in sorts]})', f'eviction from {src} is not oldest-first', node=e)
     if order == [L_done, L_started, L_pending]:
@@ -244,6 +264,33 @@ def c13_5(c: Ctx) -> None:
     from .c04 import check_blocking_wait_unreachable_with_lock
 
     check_blocking_wait_unreachable_with_lock(c)
+
+
+@ob('C13.6', 'SHAPE', 'the status that eviction classifies by is derived from the handler results alone: event_status is \'completed\' iff event_completed_at is set, \'started\' iff only '
+    'event_started_at is — never from the completion signal, which stays set when a forwarded / re-dispatched event is in flight again on another bus')
+def c13_6(c: Ctx) -> None:
+    from sa.absint import AbsInt, Rec, UNKNOWN
+
+    u = c.unit(MOD, 'BaseEvent.event_status')
+    self_ = u.params()[0]
+    sig_set = Rec()
+    cases = [
+        ('results terminal (event_completed_at set)', dict(event_completed_at='t2', event_started_at='t1'), 'completed'),
+        ('a handler still running (event_completed_at None, event_started_at set), completion signal already set by an earlier bus', dict(event_completed_at=None, event_started_at='t1'), 'started'),
+        ('no handler started yet, completion signal already set by an earlier bus', dict(event_completed_at=None, event_started_at=None), 'pending'),
+    ]
+    for desc, fields, want in cases:
+        rec = Rec(_event_completed_signal=sig_set, event_completed_signal=sig_set, event_results={}, **fields)
+        ai = AbsInt(calls={'.is_set': lambda *a: True})
+        ai.run(u.node.body, {self_: rec})
+        if ai.undecided or len(ai.returns) != 1 or ai.returns[0] is UNKNOWN:
+            raise AnalysisError(f'{u}: status undecided when {desc}')
+        got = ai.returns[0]
+        if got == want:
+            c.ok(where(u), f'{desc} -> {got!r}')
+        else:
+            c.fail(u, f'{desc} -> {got!r}', f'event_status is {got!r} when {desc} (must be {want!r}): history eviction treats an in-flight event as completed and evicts it first '
+                   '(and the pending-events capacity check no longer counts it)')
 
 
 OBLIGATIONS = ob.obs
